@@ -72,14 +72,21 @@ type HintStrategy struct {
 	NBitsForge func(n int, v *big.Int) []*big.Int
 	// InvZeroForge maps the input to a forged "inverse"; nil = honest.
 	InvZeroForge func(v *big.Int) *big.Int
+	// Generic forges any hint of the system (generic_forge.go).
+	Generic *GenericForge
 }
 
 var Honest = &HintStrategy{Name: "honest"}
 
 func (h *HintStrategy) config() backend.ProverConfig {
 	opt, _ := backend.NewProverConfig()
-	if h == nil || (h.NBitsForge == nil && h.InvZeroForge == nil) {
+	if h == nil || (h.NBitsForge == nil && h.InvZeroForge == nil && h.Generic == nil) {
 		return opt
+	}
+	if h.Generic != nil {
+		if honest, ok := opt.HintFunctions[h.Generic.ID]; ok {
+			opt.HintFunctions[h.Generic.ID] = h.Generic.wrap(h, honest)
+		}
 	}
 	if h.NBitsForge != nil {
 		f := h.NBitsForge
@@ -107,6 +114,8 @@ func (h *HintStrategy) config() backend.ProverConfig {
 	}
 	return opt
 }
+
+func frEcc() *big.Int { return ecc.BN254.ScalarField() }
 
 var solveMu sync.Mutex // the gnark solver is itself parallel; serialise per process
 
